@@ -44,16 +44,23 @@ func FindAll[T any](s []T, fn func(T) bool) map[int]T {
 
 // FindMin finds the minimum value of a slice.
 func FindMin[T constraints.Ordered](s []T) T {
-	var min T
-	if len(s) > 0 {
-		min = s[0]
-	}
-	for i := 0; i < len(s); i++ {
-		if s[i] < min {
-			min = s[i]
+	{
+		var s []T = s
+		_ = s
+		var better func(elem T, cand T) bool = Less[T]
+		_ = better
+		var best T
+		if len(s) == 0 {
+			return best
 		}
+		best = s[0]
+		for i := 1; i < len(s); i++ {
+			if better(s[i], best) {
+				best = s[i]
+			}
+		}
+		return best
 	}
-	return min
 }
 
 // FindMinBy is like FindMin except that it accept a callback function
@@ -64,19 +71,16 @@ func FindMinBy[T constraints.Ordered](s []T, fn func(val T) T) T {
 	{
 		var s []T = s
 		_ = s
-		var fn func(val T) T = fn
-		_ = fn
-		var before CompFn[T] = Less[T]
-		_ = before
+		var better func(elem T, cand T) bool = keyed(fn, Less[T])
+		_ = better
 		var best T
 		if len(s) == 0 {
 			return best
 		}
 		best = s[0]
-		bestVal := fn(best)
 		for i := 1; i < len(s); i++ {
-			if val := fn(s[i]); before(val, bestVal) {
-				best, bestVal = s[i], val
+			if better(s[i], best) {
+				best = s[i]
 			}
 		}
 		return best
@@ -111,16 +115,23 @@ func FindMinByKey[K comparable, T constraints.Ordered](mapSlice []map[K]T, key K
 
 // FindMax finds the maximum value of a slice.
 func FindMax[T constraints.Ordered](s []T) T {
-	var max T
-	if len(s) > 0 {
-		max = s[0]
-	}
-	for i := 0; i < len(s); i++ {
-		if s[i] > max {
-			max = s[i]
+	{
+		var s []T = s
+		_ = s
+		var better func(elem T, cand T) bool = notLess[T]
+		_ = better
+		var best T
+		if len(s) == 0 {
+			return best
 		}
+		best = s[0]
+		for i := 1; i < len(s); i++ {
+			if better(s[i], best) {
+				best = s[i]
+			}
+		}
+		return best
 	}
-	return max
 }
 
 // FindMaxBy is like FindMax except that it accept a callback function
@@ -128,25 +139,19 @@ func FindMax[T constraints.Ordered](s []T) T {
 // If there are more than one identical values resulted
 // from the callback function the first one is returned.
 func FindMaxBy[T constraints.Ordered](s []T, fn func(val T) T) T {
-	// The maximum is searched with the inverse ordering of the minimum.
 	{
 		var s []T = s
 		_ = s
-		var fn func(val T) T = fn
-		_ = fn
-		var before CompFn[T] = func(a, b T) bool {
-			return !Less(a, b)
-		}
-		_ = before
+		var better func(elem T, cand T) bool = keyed(fn, notLess[T])
+		_ = better
 		var best T
 		if len(s) == 0 {
 			return best
 		}
 		best = s[0]
-		bestVal := fn(best)
 		for i := 1; i < len(s); i++ {
-			if val := fn(s[i]); before(val, bestVal) {
-				best, bestVal = s[i], val
+			if better(s[i], best) {
+				best = s[i]
 			}
 		}
 		return best
